@@ -114,6 +114,9 @@ type Case struct {
 	Files    []FileSpec `json:"files"`
 	X        []XHeader  `json:"x"`
 	Chunks   []int      `json:"chunks"`
+	// LocalMin != 0: the process runs in a local time zone with that offset from UTC in minutes (time.Local);
+	// the Date header is UTC by definition and Date() must return the same instant whatever the local zone is
+	LocalMin int `json:"local_min,omitempty"`
 }
 
 func (c Case) bodyText() string {
@@ -377,6 +380,7 @@ func fromLatin1(b []byte) string {
 // ---- run ------------------------------------------------------------------------------------------
 
 type outcome struct {
+	local   bool // the case ran with a non-UTC local zone
 	history bool // the re-use phase ran (second ReadFrom into the same value, setters after accessors)
 	skipped string
 	raw     []byte
@@ -441,6 +445,12 @@ func run(c Case) (sig, msg string, o outcome) {
 }
 
 func judge(c Case, o *outcome) (sig, msg string) {
+	if c.LocalMin != 0 {
+		old := time.Local
+		time.Local = time.FixedZone("LOCAL", c.LocalMin*60)
+		defer func() { time.Local = old }()
+		o.local = true
+	}
 	m, err := build(c)
 	if err != nil {
 		return "setbody-error", fmt.Sprintf("SetBody: %v", err)
@@ -911,6 +921,9 @@ func genCase(t *rapid.T) Case {
 		Mycall: callsign(t, "mycall"),
 		Mid:    string(rapid.SliceOfN(rapid.SampledFrom([]rune("ABCDEFGHIJKLMNOPQRSTUVWXYZ0123456789")), 1, 12).Draw(t, "mid")),
 	}
+	if rapid.IntRange(0, 3).Draw(t, "local_zone") == 0 {
+		c.LocalMin = rapid.SampledFrom([]int{120, -210, 345, 60, -600, 780}).Draw(t, "local_min")
+	}
 	lo, hi := time.Date(1, 1, 1, 0, 0, 0, 0, time.UTC).Unix(), time.Date(9999, 12, 31, 23, 59, 59, 0, time.UTC).Unix()
 	switch rapid.IntRange(0, 5).Draw(t, "date_kind") {
 	case 0:
@@ -1054,6 +1067,7 @@ func account(c Case, o outcome) {
 	lab(c.ZoneSec != 0, "date:non-utc-zone")
 	lab(c.DateUnix%60 != 0 || c.DateNano != 0, "date:with-seconds")
 	lab(o.history, "history:value-reused(second ReadFrom, setters after accessors)")
+	lab(o.local, "process-local-zone-is-not-UTC")
 	harness.Label("type:" + map[bool]string{true: "default", false: c.Type}[c.Type == ""])
 	if harness.WantSample() && len(c.Files) > 0 && o.encoded {
 		harness.Sample(render(c, o))
